@@ -263,9 +263,11 @@ def _convert_timestamp_to_tz_unaware(val):
     else:
         arrow = to_arrow(val)
         if hasattr(arrow, "chunks"):
-            arr = pa.chunked_array([c.to_numpy() for c in arrow.chunks])
+            arr = pa.chunked_array(
+                [c.to_numpy(zero_copy_only=False) for c in arrow.chunks]
+            )
         else:
-            arr = arrow.to_numpy()
+            arr = arrow.to_numpy(zero_copy_only=False)
 
     return arr, orig_type
 
@@ -1046,8 +1048,11 @@ def _val_to_numpy(
     except TypeError:
         is_chunked = False
 
+    # pyarrow refuses to copy by default, which nulls and bit-packed booleans require
     if is_chunked:
-        val_list = [chunk.to_numpy() for chunk in arrow.chunks]
+        val_list = [chunk.to_numpy(zero_copy_only=False) for chunk in arrow.chunks]
+    elif isinstance(val, pa.Array):
+        val_list = [val.to_numpy(zero_copy_only=False)]
     elif hasattr(val, "to_numpy"):
         val_list = [val.to_numpy()]  # type: ignore
     else:
